@@ -403,3 +403,39 @@ ASSUMPTIONS = [
 ]
 EXPLANATION = ("C03: the real _unitary_/_eigen_components code of 17 gate families is executed on symbolic parameters and proved identical to "
                "the documented closed forms for all real parameter values (exact trig-polynomial arithmetic); named constants and rotations too. ")
+
+
+def check_vendor_native_gates():
+    """IonQ's native gates (cirq_ionq.GPIGate / GPI2Gate / MSGate / ZZGate are gate classes of the library too): the real `_unitary_` on symbolic
+    phases / angles equals the matrix IonQ documents (transcribed in contracts/C17_serializer.ionq_matrix), exactly, for all parameter values."""
+    import cirq
+    import cirq_ionq
+    import cirq_ionq.ionq_native_gates as ng
+    from contracts.C04_kernels import _CmathShim, _MathShim
+    from contracts.C17_serializer import ionq_matrix
+
+    ng.cmath, ng.math = _CmathShim(), _MathShim()
+    fams = [
+        ("GPIGate", ["phi"], lambda phi: cirq_ionq.GPIGate(phi=phi), lambda phi: dict(gate="gpi", phase=phi)),
+        ("GPI2Gate", ["phi"], lambda phi: cirq_ionq.GPI2Gate(phi=phi), lambda phi: dict(gate="gpi2", phase=phi)),
+        ("MSGate", ["phi0", "phi1", "theta"], lambda phi0, phi1, theta: cirq_ionq.MSGate(phi0=phi0, phi1=phi1, theta=theta), lambda phi0, phi1, theta: dict(gate="ms", phases=[phi0, phi1], angle=theta)),
+        ("ZZGate", ["theta"], lambda theta: cirq_ionq.ZZGate(theta=theta), lambda theta: dict(gate="zz", phase=theta)),
+    ]
+    obls = []
+    for name, params, mk, entry in fams:
+        assigns = [{p: Angle.sym(p) for p in params}] + [{p: (v if p == q_ else Angle.sym(p)) for p in params} for q_ in params for v in (0, Fraction(1, 4), Fraction(1, 2), Fraction(-1, 4))]
+        for a in assigns:
+            label = ",".join(f"{p}={'*' if isinstance(v, Angle) else v}" for p, v in a.items())
+
+            def fn(a=a, mk=mk, entry=entry):
+                trigpoly.CTX = _Generic()
+                try:
+                    U = np.asarray(cirq.unitary(mk(**a)), dtype=object)
+                finally:
+                    trigpoly.CTX = None
+                return matrix_equal(U, np.asarray(ionq_matrix(entry(**a)), dtype=object))
+            obls.append(_ob(f"C03/cirq-ionq/cirq_ionq/ionq_native_gates.py:{name}._unitary_#matrix[{label}]", fn, case=name, concrete={p: repr(v) for p, v in a.items()}))
+    return [_rep("cirq-ionq/cirq_ionq/ionq_native_gates.py:native gates[_unitary_]", obls, "C03")]
+
+
+ENGINE_CHECKS = list(ENGINE_CHECKS) + [check_vendor_native_gates]
